@@ -59,6 +59,9 @@ def file_size(P, big=True):
         st.integers(0, 64),
         st.tuples(kP, st.integers(0, P - 1)).map(lambda t: t[0] * P + t[1]),
     ]
+    if big and P == 16384:
+        # many pieces (18..70): deeper merkle trees and piece counts around 32 and 64
+        parts.append(st.tuples(st.integers(18, 70), d).map(lambda t: t[0] * P + t[1]))
     return st.one_of(*parts)
 
 
